@@ -65,6 +65,17 @@ def _re(v):
 
 
 def flat(o):
+    try:
+        return _flat(o)
+    except (TypeError, ValueError, proj.Inexact, AttributeError, OverflowError) as e:
+        # an object was produced that has no normal form over the rationals (e.g. complex coefficients): it is reported
+        # as an object of another kind, which no documented operator may produce
+        NPAIR = NP * (NP + 1) // 2
+        return dict(k="other:unprojectable-" + type(e).__name__, sense="-", pn=[0] * NP, pd=[1] * NP, Fn=[0] * NE, Fd=[1] * NE,
+                    Gn=[0] * NPAIR, Gd=[1] * NPAIR, c=[0, 1])
+
+
+def _flat(o):
     from PEPit import Point, Expression, Constraint
     NPAIR = NP * (NP + 1) // 2
     out = dict(k="raises", sense="-", pn=[0] * NP, pd=[1] * NP, Fn=[0] * NE, Fd=[1] * NE, Gn=[0] * NPAIR,
